@@ -4,6 +4,7 @@ use serde_json::Value;
 
 pub fn run(ctx: &Ctx) -> Option<Report> {
     Some(match ctx.property.as_str() {
+        "C02" => super::progprop::run(&super::p02::prop(), ctx),
         "C03" => super::p03::run(ctx),
         _ => return None,
     })
@@ -11,6 +12,7 @@ pub fn run(ctx: &Ctx) -> Option<Report> {
 
 pub fn replay(ctx: &Ctx, case: &Value) -> Option<Report> {
     Some(match ctx.property.as_str() {
+        "C02" => super::progprop::replay(&super::p02::prop(), ctx, case),
         "C03" => super::p03::replay(ctx, case),
         _ => return None,
     })
